@@ -614,7 +614,8 @@ def transform_fn(text, spec):
             for mm in hits:
                 edits.append((mm.start(), mm.end(), to.replace('{id}', mm.group(1))))
             continue
-        pos = t.find(frm, sh.bopen)
+        start_at = sh.popen if frm.startswith('&') or '<' in frm else sh.bopen      # type texts may sit in the parameter list
+        pos = t.find(frm, start_at)
         if pos < 0 or pos > sh.bclose:
             raise ExtractError('R11: text to rewrite not found: %s' % frm)
         while 0 <= pos < sh.bclose:
